@@ -152,7 +152,11 @@ pub fn build_cache(cfg: &Cfg) -> AnyCache {
 
 impl World {
     pub fn new(cfg: Cfg) -> World {
-        init_id_hashes(cfg.nkeys.max(40) as usize);
+        if cfg.hasher == "id" {
+            // (2048 counters in the smallest table: at most 512 keys with disjoint counters)
+            assert!(cfg.nkeys <= 300, "harness: too many keys for the table of disjoint hashes");
+            init_id_hashes(cfg.nkeys.max(40) as usize);
+        }
         let clock = MockClock::new();
         let base = clock.now();
         let mx: Arc<Mutex<Vec<Value>>> = Arc::new(Mutex::new(Vec::new()));
